@@ -17,7 +17,7 @@ ExtraNone  == {}
 
 VARIABLES mode,           \* "conv" | "mul"
           sb, db,         \* source / destination bits (mul: sb = db = width)
-          nat,            \* mul: native 8-bit (div255) flavour
+          nat,            \* mul: flavour of the multiplier (div255 / exact / generic)
           v, out, back,   \* conv: source value, result, result converted back
           a, b, r         \* mul: operands and result
 vars == <<mode, sb, db, nat, v, out, back, a, b, r>>
@@ -29,14 +29,14 @@ ConvSet(s, d, x) == I_ConvR(I_ConvPathR(Rg(s), Rg(d), s = d), Rg(s), Rg(d), W(d)
 Pairs == {<<s, d>> : s \in 1..MaxBitsAll, d \in 1..MaxBitsAll} \cup ExtraPairs
 
 InitConv == /\ mode = "conv" /\ \E p \in Pairs : sb = p[1] /\ db = p[2]
-            /\ nat = FALSE /\ v = 0
+            /\ nat = "none" /\ v = 0
             /\ out \in ConvSet(sb, db, 0)
             /\ back \in ConvSet(db, sb, out)
             /\ a = 0 /\ b = 0 /\ r = 0
 InitMul  == /\ mode = "mul" /\ sb \in 1..MaxMulBits /\ db = sb
-            /\ nat \in (IF sb = 8 THEN {TRUE, FALSE} ELSE {FALSE})
+            /\ nat \in (IF sb = 8 THEN {"div255", "generic"} ELSE {"generic", "exact"})
             /\ v = 0 /\ out = 0 /\ back = 0
-            /\ a = 0 /\ b = 0 /\ r = I_MulR(nat, Rg(sb), 0, 0)
+            /\ a = 0 /\ b = 0 /\ r \in I_MulSet(nat, Rg(sb), 0, 0)
 Init == InitConv \/ InitMul
 
 ScanConv == /\ mode = "conv" /\ v < Rg(sb)
@@ -45,10 +45,10 @@ ScanConv == /\ mode = "conv" /\ v < Rg(sb)
             /\ back' \in ConvSet(db, sb, out')
             /\ UNCHANGED <<mode, sb, db, nat, a, b, r>>
 ScanMulB == /\ mode = "mul" /\ b < Rg(sb)
-            /\ b' = b + 1 /\ r' = I_MulR(nat, Rg(sb), a, b + 1)
+            /\ b' = b + 1 /\ r' \in I_MulSet(nat, Rg(sb), a, b + 1)
             /\ UNCHANGED <<mode, sb, db, nat, v, out, back, a>>
 ScanMulA == /\ mode = "mul" /\ a < Rg(sb)
-            /\ a' = a + 1 /\ r' = I_MulR(nat, Rg(sb), a + 1, b)
+            /\ a' = a + 1 /\ r' \in I_MulSet(nat, Rg(sb), a + 1, b)
             /\ UNCHANGED <<mode, sb, db, nat, v, out, back, b>>
 Next == ScanConv \/ ScanMulB \/ ScanMulA
 Spec == Init /\ [][Next]_vars
@@ -64,7 +64,7 @@ Inv_ConvIdent   == (IsConv /\ sb = db) => out = v
 Inv_ConvRoundTrip == (IsConv /\ Rg(db) >= Rg(sb)) => back = v
 Inv_MulInRange  == IsMul => (r >= 0 /\ r <= Rg(sb))
 Inv_MulNear     == IsMul => P_MulNearR(Rg(sb), a, b, r)
-Inv_MulCommut   == IsMul => r = I_MulR(nat, Rg(sb), b, a)
+Inv_MulCommut   == IsMul => (r \in I_MulSet(nat, Rg(sb), b, a) /\ I_MulSet(nat, Rg(sb), a, b) = I_MulSet(nat, Rg(sb), b, a))
 Inv_MulIdentity == IsMul => ((b = Rg(sb) => r = a) /\ (a = Rg(sb) => r = b) /\ ((a = 0 \/ b = 0) => r = 0))
 Inv_Invert      == IsConv => (P_Invert([bits |-> sb], P_Invert([bits |-> sb], v)) = v
                               /\ P_Invert([bits |-> sb], v) \in 0..Rg(sb))
